@@ -84,7 +84,9 @@ func CleanDomain(addr string) (string, error) {
 	if err != nil {
 		return addr, err
 	}
-	uDomain = strings.ToLower(norm.NFC.String(uDomain))
+	// Same as dns.ForLookup: lower case form of the composed string is not
+	// necessarily composed.
+	uDomain = norm.NFC.String(strings.ToLower(norm.NFC.String(uDomain)))
 
 	if domain == "" {
 		return mbox, nil
